@@ -1,4 +1,4 @@
-from vf.manifest import claim, na
+from vf.registry import claim, na
 
 claim('C07',
       'Bounded proof per obligation: cbmc explores every value of the symbolic call sizes, flags, engine supply and API state within the stated bounds and checks every pointer access, shift, division, signed overflow and float->int conversion of the real soxr.c/data-io.c (and kernels) plus the buffer-contract assertions; inductive-step form (one call from any API state) so that history length is not a bound.',
